@@ -107,7 +107,7 @@ PLANS.update({
     },
     "C16": {
         "quick": [job("c16"), sess("tree", "C16", 200, 15)],
-        "thorough": [job("c16"), job("c16", variant="nouni"), sess("tree", "C16", 3000, 200)],
+        "thorough": [job("c16", timeout=3600), job("c16", variant="nouni", timeout=3600), sess("tree", "C16", 3000, 200)],
         "floor": 10000,
     },
     "C18": {
